@@ -25,8 +25,13 @@ S = {
 }
 os.chdir('/verif/seeded')
 for sid in sorted(os.listdir('.')):
-    if not os.path.isdir(sid) or sid not in S: continue
-    prop = sid
+    if not os.path.isdir(sid): continue
+    prop = sid.rstrip('b')
+    if sid not in S:
+        am = f'{sid}/agent_meta.json'
+        if not os.path.exists(am): continue
+        a = json.load(open(am))
+        S[sid] = (a.get('summary', ''), a.get('needs', ''))
     conf = open(f'{sid}/confirm.log', errors='replace').read() if os.path.exists(f'{sid}/confirm.log') else ''
     steps = re.findall(r'^== (.*)\n(?:.*\n)*?exit=(\d+)', conf, re.M)
     chk = f'{sid}/check_{prop}.log'
